@@ -35,6 +35,18 @@ def ResumeYieldsTheRest : Prop :=
     Http.follow (serve pool sz pre steps) (steps.length + 1) (serve pool sz pre steps pos)
       = Sem.producer false (steps.drop pos)
 
+/-- a producer that reads its tick: whatever the caps, the client observes the run in which exactly the first `process()`
+of the stream saw the init request's metadata -/
+def ReactiveIteratesOneRun : Prop :=
+  ∀ (cap0 : Option Nat) (pool : Nat → Option Nat) (sz : Item → Nat) (pre : Nat) (initLogs : List Log) (rs : List RStep),
+    obs (iterateT cap0 pool sz pre initLogs rs) = obs (Sem.lg initLogs ++ Sem.producer false (resolve true rs))
+
+/-- … and resuming at any position yields the rest of that run (every resumed call sees the empty tick) -/
+def ReactiveResumeYieldsTheRest : Prop :=
+  ∀ (pool : Nat → Option Nat) (sz : Item → Nat) (pre : Nat) (rs : List RStep) (pos : Nat),
+    Http.follow (serveT pool sz pre rs) (rs.length + 1) (serveT pool sz pre rs pos)
+      = Sem.producer false ((rs.map (·.plain)).drop pos)
+
 /-- a turn under cap `c` that starts with `told` bytes in the buffer ends at most one step past the cap:
 body (without the end-of-stream marker) ≤ max told c + bytes of the last step written + the sentinel -/
 def OvershootAtMostLastStep : Prop :=
